@@ -438,8 +438,46 @@ def readonly(B):
     B.obs.append(('dumpR3', B.dump('r')))
 
 
+def metadata(B):
+    d = B.darr
+    a = d.asarray(B.path('m'), B.arr('x', 3, (), 'int32', 'little'), accessmode='r+')
+    md = a.metadata
+
+    def view(tag):
+        B.obs.append((tag, sorted((k, json.dumps(v, sort_keys=True)) for k, v in md.items()), len(md),
+                      'a' in md, md.get('a'), md.get('q', 5)))
+        dd = B.dump('m')
+        B.obs.append((tag + 'file', dd.get('metadata.json')))
+    view('v0')
+    attempt(B, 'set', lambda: md.__setitem__('a', 1))
+    view('v1')
+    attempt(B, 'upd', lambda: md.update({'b': [1, (2, 3)], 'c': {'x': None, 'y': 2.5}}, d='kw'))
+    view('v2')
+    attempt(B, 'np', lambda: md.update({'e': B.np.int64(7) if B.kind == 'real' else B.np.int64(7)}))
+    view('v3')
+    attempt(B, 'bad', lambda: md.update({'f': object()}))
+    view('v4')
+    attempt(B, 'badkey', lambda: md.update({(1, 2): 3}))
+    view('v5')
+    B.obs.append(('pop', md.pop('a')))
+    attempt(B, 'popmissing', lambda: md.pop('zz'))
+    B.obs.append(('popd', md.pop('zz', 9)))
+    B.obs.append(('popitem', list(md.popitem())))
+    view('v6')
+    attempt(B, 'del', lambda: md.__delitem__('b'))
+    attempt(B, 'delmissing', lambda: md.__delitem__('b'))
+    while len(md):
+        B.obs.append(('popitem', json.dumps(list(md.popitem()))))
+    view('v7')
+    attempt(B, 'popitemempty', lambda: md.popitem())
+    attempt(B, 'getmissing', lambda: md['nope'])
+    fresh = d.Array(B.path('m'))
+    B.obs.append(('fresh', sorted(fresh.metadata.keys())))
+    attempt(B, 'ro', lambda: fresh.metadata.update({'x': 1}))
+
+
 SCENARIOS = {f.__name__: f for f in [array_basic, array_append, array_truncate, array_assign,
-                                        array_failappend, ragged_basic, ragged_fail, readonly]}
+                                        array_failappend, ragged_basic, ragged_fail, readonly, metadata]}
 
 
 def run(names, stub_readme=True):
